@@ -566,7 +566,7 @@ def n_defs(ctx, item_ids):
 
 
 def shards(tier):
-    out = []
+    out = [("redefined", 0, 0, 1)]
     al = a_list(tier)
     for ai in range(len(al)):
         nsplit = 6 if tier != "quick" else 3
@@ -643,9 +643,100 @@ def perm_cases(ctx, tier):
     return out
 
 
+# hand family: a specified directive redefined by the schema (legal SDL; the user's definition replaces the built-in one) with arguments
+# of user-defined types - the transformations must treat it like any other directive of the schema
+REDEF_BASES = [
+    "directive @skip(if: Boolean!, mode: Mode) on FIELD | FRAGMENT_SPREAD | INLINE_FRAGMENT\nenum Mode { X Y }\ntype Query { a: Int }",
+    "directive @include(if: Boolean!, cfg: Cfg = {k: 1}) on FIELD | FRAGMENT_SPREAD | INLINE_FRAGMENT\ninput Cfg { k: Int }\ntype Query { a: Int }",
+    "directive @deprecated(reason: String = \"No longer supported\", since: Ver) on FIELD_DEFINITION | ENUM_VALUE | ARGUMENT_DEFINITION | INPUT_FIELD_DEFINITION\nscalar Ver\ntype Query { a: Int @deprecated(since: 1) }",
+    "directive @specifiedBy(url: String!, kind: Kind) on SCALAR\nenum Kind { RFC }\nscalar U @specifiedBy(url: \"x\", kind: RFC)\ntype Query { u: U }",
+]
+REDEF_EXTS = ["extend type Query { b: Int }", "type N { x: Int }", "enum Other { A }\nextend type Query { o: Other }"]
+
+
+def _stale_references(schema):
+    """Named types referenced from directive arguments / fields that are not the object the schema's type map holds under that name."""
+    import graphql as g
+
+    out = []
+
+    def named(t):
+        while isinstance(t, (g.GraphQLList, g.GraphQLNonNull)):
+            t = t.of_type
+        return t
+
+    for d in schema.directives:
+        for an, a in d.args.items():
+            t = named(a.type)
+            if schema.type_map.get(t.name) is not t:
+                out.append(f"@{d.name}({an}:) -> {t.name}")
+    for t in schema.type_map.values():
+        for fn, f in (getattr(t, "fields", None) or {}).items():
+            ft = named(f.type)
+            if schema.type_map.get(ft.name) is not ft:
+                out.append(f"{t.name}.{fn} -> {ft.name}")
+    return out
+
+
+def run_redefined(res):
+    from graphql import build_schema, parse, print_schema
+    from graphql.utilities import extend_schema, lexicographic_sort_schema
+
+    for bi, a in enumerate(REDEF_BASES):
+        for ei, b in enumerate(REDEF_EXTS):
+            res.states += 1
+            res.transitions += 1
+            res.evaluations += 1
+            res.executions += 2
+            payload = {"mode": "redefined", "base": bi, "ext": ei}
+            label = f"A = {a!r} B = {b!r}"
+            try:
+                built = build_schema(a + "\n" + b)
+                base = build_schema(a)
+            except Exception as e:  # noqa: BLE001
+                res.violation("redefined_directive:build_raises", f"{label}: {type(e).__name__}: {e}", payload)
+                continue
+            try:
+                ext = extend_schema(base, parse(b))
+            except Exception as e:  # noqa: BLE001
+                res.violation("redefined_directive:extend_raises", f"{label}: extend_schema raised {type(e).__name__}: {e}; build(A+B) works", payload)
+                continue
+            stale = _stale_references(ext)
+            if stale:
+                res.violation("redefined_directive:extended_schema_has_stale_references", f"{label}: {stale}", payload)
+                continue
+            da = {d.name: sorted(d.args) for d in ext.directives}
+            db = {d.name: sorted(d.args) for d in built.directives}
+            if print_schema(ext) != print_schema(built) or da != db:
+                res.violation("redefined_directive:extend_differs_from_build", f"{label}: directives {da} vs {db}", payload)
+                continue
+            res.outcome(("redefined", bi, ei))
+        res.executions += 1
+        payload = {"mode": "redefined", "base": bi, "ext": None}
+        try:
+            base = build_schema(a)
+            srt = lexicographic_sort_schema(base)
+            again = lexicographic_sort_schema(srt)
+        except Exception as e:  # noqa: BLE001
+            res.violation("redefined_directive:sort_raises", f"A = {a!r}: lexicographic_sort_schema raised {type(e).__name__}: {e}", payload)
+            continue
+        stale = _stale_references(srt)
+        if stale:
+            res.violation("redefined_directive:sorted_schema_has_stale_references", f"A = {a!r}: {stale}", payload)
+            continue
+        if print_schema(srt) != print_schema(again) or sorted(srt.type_map) != sorted(base.type_map):
+            res.violation("redefined_directive:sort_not_idempotent", f"A = {a!r}", payload)
+            continue
+        res.outcome(("redefined_sort", bi))
+    res.sample({"family": "redefined specified directive", "A": REDEF_BASES[0], "B": REDEF_EXTS[0]}, 1)
+
+
 def run_shard(shard, tier):
     res = Result()
     kind = shard[0]
+    if kind == "redefined":
+        run_redefined(res)
+        return res
     al = a_list(tier)
     if kind == "ext":
         _, ai, j, n = shard
@@ -717,6 +808,9 @@ def replay(payload):
         return run_sort(tuple(payload["features"]), res).found
     if mode == "diff":
         return run_edit(tuple(payload["a"]), payload["edit"], res).found
+    if mode == "redefined":
+        run_redefined(res)
+        return [{"signature": v["signature"], "summary": v["summary"]} for v in res.violations if v["replay"] == payload]
     if mode == "refl":
         return run_reflexive(tuple(payload["features"]), bool(payload.get("rich")), res).found
     return []
